@@ -16,7 +16,7 @@ Require Import PyBase Container Alias.
 Require Import ExtrOcamlBasic ExtrOcamlString.
 Extraction Language OCaml.
 Extraction "%(out)s" np_step np_init_model init_vc values_shape size_of nbytes_own
-  alias_construct alias_step export alias_init_model alias_getitem alias_getattr_var read alias_read reg_names reindex_with np_fill resolve string_of_Z.
+  alias_construct alias_step export alias_init_model alias_getitem alias_getattr_var read alias_read reg_names reindex_with np_fill resolve export_with string_of_Z.
 '''
 
 DRIVER_ML = r'''
@@ -144,7 +144,7 @@ let jstate s =
       | Some v -> "[" ^ jname nm ^ "," ^ jdtype v.vdtype ^ "," ^ jlist jnat v.vshape ^ "," ^ jlist jcell v.vdata ^ "]"
       | None -> "[" ^ jname nm ^ ",null,null,null]") s.index in
   let vs = match values_shape s with Ret sh -> jlist jnat sh | Raise e -> jstr (exn_name e) in
-  "{\"index\":" ^ jlist jname s.index ^ ",\"vars\":[" ^ String.concat "," vars ^ "],\"values\":" ^ vs
+  "{\"span\":" ^ jlist zstr s.span ^ ",\"index\":" ^ jlist jname s.index ^ ",\"vars\":[" ^ String.concat "," vars ^ "],\"values\":" ^ vs
   ^ ",\"size\":" ^ jnat (size_of s) ^ ",\"nbytes\":" ^ jnat (nbytes_own s)
   ^ ",\"strict\":" ^ (if s.strict then "true" else "false")
   ^ ",\"reg\":" ^ jlist jname (reg_names s.registry)
@@ -200,7 +200,7 @@ let handle line =
            let opl = List.map op_of_opt (list_of ops) in
            "{\"init\":\"ok\",\"st0\":" ^ jstate s0 ^ ",\"steps\":[" ^ String.concat "," (run_ops np_step read s0 opl) ^ "]"
            ^ jreindex (fun x -> x) rx (final_state np_step s0 opl) ^ "}")
-  | L [A "alias"; A k; extra; al; pref; sp; st; d; dflt; nms; ivs; ops; reads; rx] ->
+  | L [A "alias"; A k; extra; al; pref; sp; st; d; dflt; nms; ivs; ops; reads; rx; L [A "fl"; f1; f2; f3]] ->
       (* AliasMixin over a model / linker: constructor, ops through aliases, renamed export *)
       let dr = match dreq_of d with Some x -> x | None -> failwith "dreq" in
       (match alias_construct (aliases_of al) (names_of pref) with
@@ -215,7 +215,7 @@ let handle line =
                 let opl = List.map op_of_opt (list_of ops) in
                 let steps = run_ops (alias_step am) (alias_read am) s0 opl in
                 let sfin = List.fold_left (fun s o -> match o with None -> s | Some o -> fst (alias_step am o s)) s0 opl in
-                let ren = match export am sfin with
+                let ren = match export_with am (int_of_sx f1 <> 0) (int_of_sx f2 <> 0) (int_of_sx f3 <> 0) sfin with
                   | Ret l -> jlist (fun (t, src) -> "[" ^ jname t ^ "," ^ jname src ^ "]") l | Raise e -> jstr (exn_name e) in
                 let jres = function Ret cells -> "{\"ok\":" ^ jlist jcell cells ^ "}" | Raise e -> jstr (exn_name e) in
                 let rds = List.map (function
@@ -411,10 +411,12 @@ def enc_case(case, hints):
                                          ' '.join('(%s %s)' % (xname(k), enc_operand(v)) for k, v in case['ivs']), ops)
     if 'aliases' in case:
         reads = ' '.join('(a %s)' % xname(r[1]) if r[0] == 'a' else '(g %s)' % enc_key(r[1]) for r in case.get('reads', []))
-        return '(alias %s %d (%s) (%s) %s (%s) %s)' % (
+        fkw = case.get('fkw') or {}
+        fl = '(fl %d %d %d)' % (1 if fkw.get('status', True) else 0, 1 if fkw.get('iterations', True) else 0, 1 if fkw.get('include_internal', False) else 0)
+        return '(alias %s %d (%s) (%s) %s (%s) %s %s)' % (
             case['kind'], case.get('extra', 0),
             ' '.join('(%s %s)' % (xname(k), xname(v)) for k, v in case['aliases']),
-            ' '.join(xname(x) for x in case['preferred']), tail, reads, rx)
+            ' '.join(xname(x) for x in case['preferred']), tail, reads, rx, fl)
     return '(%s %d %s %s)' % (case['kind'], case.get('extra', 0), tail, rx)
 
 
@@ -532,10 +534,19 @@ def observe(obj, declared=None):
     calls): `values` is compared row by row against the series of exactly these names."""
     import numpy as np
     d = obj.__dict__
-    index = list(d['index'])
+    index = list(d['index']) if 'index' in d else list(obj.index)
+    try:
+        span = [int(x) if isinstance(x, (int, np.integer)) and not isinstance(x, bool) else repr(x) for x in obj.span]
+    except BaseException as e:             # noqa: BLE001
+        span = type(e).__name__
     vs = []
     for nm in index:
         a = d.get('_' + nm)
+        if a is None and ('_' + nm) not in d:
+            try:
+                a = obj[nm]                # another private layout: the public item access
+            except BaseException:          # noqa: BLE001
+                a = None
         if isinstance(a, np.ndarray):
             vs.append([nm, canon_dtype(a.dtype), list(a.shape), [canon_cell(x) for x in a.ravel().tolist()]])
         else:
@@ -571,14 +582,14 @@ def observe(obj, declared=None):
     except BaseException as e:             # noqa: BLE001
         size = type(e).__name__
     try:
-        nbytes = int(sum(d['_' + k].nbytes for k in index))
+        nbytes = int(sum(d['_' + k].nbytes for k in index if hasattr(d.get('_' + k), 'nbytes')))
     except BaseException as e:             # noqa: BLE001
         nbytes = type(e).__name__
     reg = d.get('_attributes')
     reg = [x if isinstance(x, str) else None for x in reg] if isinstance(reg, list) else ['notalist']
     hidden = set('_' + n for n in index)
-    adict = sorted(k for k in d if k not in CORE_DICT and k not in hidden)
-    return {'index': index, 'vars': vs, 'values': values, 'size': size, 'nbytes': nbytes, 'strict': bool(d.get('_strict')),
+    adict = sorted(k for k in d if k not in CORE_DICT and k not in hidden and not (k.startswith('_') and isinstance(d[k], np.ndarray)))
+    return {'span': span, 'index': index, 'vars': vs, 'values': values, 'size': size, 'nbytes': nbytes, 'strict': bool(d.get('_strict')),
             'reg': reg, 'adict': adict, 'names': list(d.get('names', [])), 'values_rows_ok': rows_ok}
 
 
@@ -600,9 +611,11 @@ def apply_op(obj, op):
         if t == 'addvar':
             obj.add_variable(op[1], py_of_operand(op[2]), dtype=py_dreq(op[3]))
         elif t == 'setattr':
-            setattr(obj, op[1], py_of_operand(op[2]))
+            info['_operand'] = py_of_operand(op[2])
+            setattr(obj, op[1], info['_operand'])
         elif t == 'setitem':
-            obj[py_of_key(op[1])] = py_of_operand(op[2])
+            info['_operand'] = py_of_operand(op[2])
+            obj[py_of_key(op[1])] = info['_operand']
         elif t == 'replace':
             obj.replace_values(**{k: py_of_operand(v) for k, v in op[1]})
         elif t == 'addattr':
@@ -649,6 +662,25 @@ def same_query_result(model_ret, real_ret):
     return model_ret == real_ret
 
 
+def scramble(a):
+    """Overwrite every cell of the caller's ndarray operand AFTER the operation: a series that merely refers to it would change."""
+    import numpy as np
+    if not isinstance(a, np.ndarray) or a.size == 0:
+        return False
+    try:
+        if a.dtype.kind in 'iuf':
+            a[...] = 77
+        elif a.dtype.kind == 'b':
+            a[...] = ~a
+        elif a.dtype.kind == 'U':
+            a[...] = 'q'
+        else:
+            a[...] = 77
+        return True
+    except Exception:                  # noqa: BLE001
+        return False
+
+
 def make_class(kind, names, aliases=None, preferred=None, evaluate=None):
     import fsic
     base = {'model': fsic.BaseModel, 'linker': fsic.BaseLinker}[kind]
@@ -664,6 +696,17 @@ def make_class(kind, names, aliases=None, preferred=None, evaluate=None):
     return type('M', bases, ns)
 
 
+def span_object(case):
+    """The span as the sequence type the case asks for (list / tuple / range: all looked up with .index)."""
+    sp = list(case['span'])
+    t = case.get('span_type', 'list')
+    if t == 'tuple':
+        return tuple(sp)
+    if t == 'range' and len(sp) >= 1 and sp == list(range(sp[0], sp[0] + len(sp))):
+        return range(sp[0], sp[0] + len(sp))
+    return sp
+
+
 def construct(case):
     """Build the real object of a case -> (obj, outcome)."""
     import fsic
@@ -671,11 +714,11 @@ def construct(case):
     kind = case['kind']
     try:
         if kind == 'vc':
-            return VectorContainer(list(case['span']), strict=case['strict']), 'ok'
+            return VectorContainer(span_object(case), strict=case['strict']), 'ok'
         cls = make_class(kind, case['names'], case.get('aliases'), case.get('preferred'))
         kw = {k: py_of_operand(v) for k, v in case['ivs']}
         if kind == 'model':
-            return cls(list(case['span']), strict=case['strict'], dtype=py_dreq(case['dreq']),
+            return cls(span_object(case), strict=case['strict'], dtype=py_dreq(case['dreq']),
                        default_value=py_of_operand(case['default']), **kw), 'ok'
         subs = None
         if case.get('extra', 0):
@@ -794,9 +837,20 @@ def impl_run(case):
         o, info = apply_op(obj, op)
         if op[0] == 'addvar' and o == 'ok':
             declared.append(op[1])
-        step = {'out': o, 'st': observe(obj, declared), 'hint': hint}
+        operand = info.pop('_operand', None)
+        values_ok = None
         if op[0] == 'setattr' and op[1] == 'values' and o == 'ok':
-            step['values_set_ok'] = values_set_readback(obj, declared, py_of_operand(op[2]))
+            values_ok = values_set_readback(obj, declared, py_of_operand(op[2]))
+        shared = None
+        if hasattr(operand, 'dtype'):
+            before = observe(obj, declared)
+            if scramble(operand):
+                shared = diff_state(before, observe(obj, declared))
+        step = {'out': o, 'st': observe(obj, declared), 'hint': hint}
+        if shared:
+            step['shared'] = shared
+        if values_ok is not None:
+            step['values_set_ok'] = values_ok
         if 'msg' in info:
             step['msg'] = info['msg']
         if 'ret' in info:
@@ -819,7 +873,7 @@ def reindex_observation(obj, rx, declared):
 
 def diff_state(a, b):
     """First differing field of two canonical states (model vs real) or None."""
-    for k in ('index', 'vars', 'values', 'size', 'nbytes', 'strict', 'reg', 'adict', 'names'):
+    for k in ('span', 'index', 'vars', 'values', 'size', 'nbytes', 'strict', 'reg', 'adict', 'names'):
         if a.get(k) != b.get(k):
             return '%s: model=%s impl=%s' % (k, json.dumps(a.get(k))[:300], json.dumps(b.get(k))[:300])
     return None
